@@ -18,12 +18,10 @@ int verif_exc;
 const char* g_exc_msg; const char* g_exc_file; uint64_t g_exc_line;
 const char* g_what_msg; const char* g_what_file; uint64_t g_what_line;
 
-/* string equality against a literal, unrolled by the preprocessor-known length (no loop) */
-#define CH(p, lit, i) ((i) >= sizeof(lit) || (p)[i] == (lit)[i])
-#define CH8(p, lit, i) (CH(p, lit, i) && CH(p, lit, (i) + 1) && CH(p, lit, (i) + 2) && CH(p, lit, (i) + 3) && \
-                        CH(p, lit, (i) + 4) && CH(p, lit, (i) + 5) && CH(p, lit, (i) + 6) && CH(p, lit, (i) + 7))
-#define STR_IS(p, lit) (sizeof(lit) <= 64 && CH8(p, lit, 0) && CH8(p, lit, 8) && CH8(p, lit, 16) && CH8(p, lit, 24) && \
-                        CH8(p, lit, 32) && CH8(p, lit, 40) && CH8(p, lit, 48) && CH8(p, lit, 56))
+/* "p is the string lit": cbmc interns string literals by content (identical literals are one object, different
+ * literals are different objects -- probed), so in the model pointer equality with a literal is content equality.
+ * p always originates from a literal of the macro expansion here. */
+#define STR_IS(p, lit) ((p) == (lit))
 
 #define PRELUDE \
   const char *m0, *f0; uint64_t in_old_line; \
